@@ -12,7 +12,7 @@ mkdir -p /tmp/sens
 git -C /repo worktree remove --force "$W" >/dev/null 2>&1; rm -rf "$W"
 git -C /repo worktree add -q --detach "$W" HEAD || exit 2
 git -C "$W" apply "$D/patch.diff" || { echo "patch does not apply"; exit 2; }
-REV=$(git -C /verif rev-parse --short HEAD)
+REV=$(git -C /verif rev-parse --short HEAD)/${SEED_TAG:-manual}
 mkdir -p "$W/.verif"
 git -C /verif archive HEAD check harness replays known_findings.json | tar -x -C "$W/.verif"
 export VERIF_REPO="$W" VERIF_SCRATCH="$W/.vharness"
